@@ -714,4 +714,204 @@ theorem C19_damping_zone_bounded_3d (w : ℕ) (hw : 1 ≤ w) (nz ny nx : ℤ) (h
 
 end Value3
 
+/-! ### program level (3D): the outermost ring is driven to zero -/
+
+section RingZero3
+variable {B : Type} [DecidableEq B]
+
+def IsDampLin3 (c : Call3 B ℝ) (f g : B) (corner : ℝ) : Prop :=
+  ∃ κ : ℝ, c.writes = [(f, fun s i j k => s f i j k * Real.sin (κ * (s g i j k - corner)))]
+
+theorem kernels_isDampLin3 (w : ℕ) (dx c : ℝ) (f g : B) (r : Rect3) :
+    IsDampLin3 (call_penalise_field_x_front_boundary_stencil_3d_w realTransc w dx c f g r) f g c ∧
+    IsDampLin3 (call_penalise_field_x_back_boundary_stencil_3d_w realTransc w dx c f g r) f g c ∧
+    IsDampLin3 (call_penalise_field_y_front_boundary_stencil_3d_w realTransc w dx c f g r) f g c ∧
+    IsDampLin3 (call_penalise_field_y_back_boundary_stencil_3d_w realTransc w dx c f g r) f g c ∧
+    IsDampLin3 (call_penalise_field_z_front_boundary_stencil_3d_w realTransc w dx c f g r) f g c ∧
+    IsDampLin3 (call_penalise_field_z_back_boundary_stencil_3d_w realTransc w dx c f g r) f g c := by
+  have front : ∀ q : ℝ, (fun (s : Store3 B ℝ) i j k => s f i j k * Real.sin (q * Real.pi * dx⁻¹ * (-c + s g i j k)))
+      = fun s i j k => s f i j k * Real.sin ((q * Real.pi * dx⁻¹) * (s g i j k - c)) := by
+    intro q; funext s i j k; congr 2; ring
+  have back : ∀ q : ℝ, (fun (s : Store3 B ℝ) i j k => s f i j k * Real.sin (q * Real.pi * dx⁻¹ * (c + -(s g i j k))))
+      = fun s i j k => s f i j k * Real.sin ((-(q * Real.pi * dx⁻¹)) * (s g i j k - c)) := by
+    intro q; funext s i j k; congr 2; ring
+  have mk : ∀ (q : ℝ) (c1 c2 c3 c4 c5 c6 : Call3 B ℝ),
+      c1.writes = [(f, fun s i j k => s f i j k * Real.sin (q * Real.pi * dx⁻¹ * (-c + s g i j k)))] →
+      c2.writes = [(f, fun s i j k => s f i j k * Real.sin (q * Real.pi * dx⁻¹ * (c + -(s g i j k))))] →
+      c3.writes = [(f, fun s i j k => s f i j k * Real.sin (q * Real.pi * dx⁻¹ * (-c + s g i j k)))] →
+      c4.writes = [(f, fun s i j k => s f i j k * Real.sin (q * Real.pi * dx⁻¹ * (c + -(s g i j k))))] →
+      c5.writes = [(f, fun s i j k => s f i j k * Real.sin (q * Real.pi * dx⁻¹ * (-c + s g i j k)))] →
+      c6.writes = [(f, fun s i j k => s f i j k * Real.sin (q * Real.pi * dx⁻¹ * (c + -(s g i j k))))] →
+      IsDampLin3 c1 f g c ∧ IsDampLin3 c2 f g c ∧ IsDampLin3 c3 f g c ∧ IsDampLin3 c4 f g c ∧ IsDampLin3 c5 f g c ∧ IsDampLin3 c6 f g c := by
+    intro q c1 c2 c3 c4 c5 c6 h1 h2 h3 h4 h5 h6
+    exact ⟨⟨_, by rw [h1, front q]⟩, ⟨_, by rw [h2, back q]⟩, ⟨_, by rw [h3, front q]⟩, ⟨_, by rw [h4, back q]⟩,
+      ⟨_, by rw [h5, front q]⟩, ⟨_, by rw [h6, back q]⟩⟩
+  rcases w with _ | _ | _ | _ | _ | _ | w
+  · exact mk (1 / 12) _ _ _ _ _ _ rfl rfl rfl rfl rfl rfl
+  · exact mk (1 / 2) _ _ _ _ _ _ rfl rfl rfl rfl rfl rfl
+  · exact mk (1 / 4) _ _ _ _ _ _ rfl rfl rfl rfl rfl rfl
+  · exact mk (1 / 6) _ _ _ _ _ _ rfl rfl rfl rfl rfl rfl
+  · exact mk (1 / 8) _ _ _ _ _ _ rfl rfl rfl rfl rfl rfl
+  · exact mk (1 / 10) _ _ _ _ _ _ rfl rfl rfl rfl rfl rfl
+  · exact mk (1 / 12) _ _ _ _ _ _ rfl rfl rfl rfl rfl rfl
+
+theorem exec_damplin3 (c : Call3 B ℝ) (f g : B) (corner : ℝ) (h : IsDampLin3 c f g corner) (s : Store3 B ℝ) :
+    ∃ κ : ℝ, (∀ i j k, c.region.mem i j k → c.exec s f i j k = s f i j k * Real.sin (κ * (s g i j k - corner))) := by
+  obtain ⟨κ, hκ⟩ := h
+  refine ⟨κ, fun i j k hm => ?_⟩
+  rw [(exec3_write1 c f _ hκ s).1]
+  simp only [applyK3, if_pos hm]
+
+theorem damp_zero3 (c : Call3 B ℝ) (f : B) (h : IsDamp3 c f) (s : Store3 B ℝ) (i j k : ℤ) (h0 : s f i j k = 0) : c.exec s f i j k = 0 := by
+  have := (exec_damp3 c f h s).1 i j k
+  rw [h0, abs_zero] at this
+  exact abs_eq_zero.mp (le_antisymm this (abs_nonneg _))
+
+/-- C19 (damping, 3D PROGRAM, outermost faces): on each of the six faces, where the coordinate array of that axis holds
+the corner value the generator read, the field is exactly zero after the whole damping program (x, then y, then z
+passes: the later passes only copy zeros or multiply them) — any width ≥ 1 with non-overlapping zones -/
+theorem C19_damping_face_zero_3d (w : ℕ) (hw : 1 ≤ w) (nz ny nx : ℤ) (hx : 2 * (w : ℤ) ≤ nx) (hy : 2 * (w : ℤ) ≤ ny) (hz : 2 * (w : ℤ) ≤ nz)
+    (dx : ℝ) (c : Corners3 ℝ) (f xg yg zg : B) (hfx : xg ≠ f) (hfy : yg ≠ f) (hfz : zg ≠ f) (s : Store3 B ℝ) :
+    ((∀ a b, 0 ≤ a → a < nz → 0 ≤ b → b < ny → s xg a b 0 = c.x0) → ∀ i j, 0 ≤ i → i < nz → 0 ≤ j → j < ny →
+        exec3 (penaliseBoundary3D realTransc w nz ny nx dx c f xg yg zg) s f i j 0 = 0) ∧
+    ((∀ a b, 0 ≤ a → a < nz → 0 ≤ b → b < ny → s xg a b (nx - 1) = c.x1) → ∀ i j, 0 ≤ i → i < nz → 0 ≤ j → j < ny →
+        exec3 (penaliseBoundary3D realTransc w nz ny nx dx c f xg yg zg) s f i j (nx - 1) = 0) ∧
+    ((∀ a d, 0 ≤ a → a < nz → 0 ≤ d → d < nx → s yg a 0 d = c.y0) → ∀ i k, 0 ≤ i → i < nz → 0 ≤ k → k < nx →
+        exec3 (penaliseBoundary3D realTransc w nz ny nx dx c f xg yg zg) s f i 0 k = 0) ∧
+    ((∀ a d, 0 ≤ a → a < nz → 0 ≤ d → d < nx → s yg a (ny - 1) d = c.y1) → ∀ i k, 0 ≤ i → i < nz → 0 ≤ k → k < nx →
+        exec3 (penaliseBoundary3D realTransc w nz ny nx dx c f xg yg zg) s f i (ny - 1) k = 0) ∧
+    ((∀ b d, 0 ≤ b → b < ny → 0 ≤ d → d < nx → s zg 0 b d = c.z0) → ∀ j k, 0 ≤ j → j < ny → 0 ≤ k → k < nx →
+        exec3 (penaliseBoundary3D realTransc w nz ny nx dx c f xg yg zg) s f 0 j k = 0) ∧
+    ((∀ b d, 0 ≤ b → b < ny → 0 ≤ d → d < nx → s zg (nz - 1) b d = c.z1) → ∀ j k, 0 ≤ j → j < ny → 0 ≤ k → k < nx →
+        exec3 (penaliseBoundary3D realTransc w nz ny nx dx c f xg yg zg) s f (nz - 1) j k = 0) := by
+  have hw0 : w ≠ 0 := by omega
+  have hW : (1 : ℤ) ≤ (w : ℤ) := by exact_mod_cast hw
+  set W : ℤ := (w : ℤ) with hWdef
+  have hhx : headHi nx W = W := min_eq_left (by omega)
+  have htx : tailLo nx W = nx - W := max_eq_right (by omega)
+  have hhy : headHi ny W = W := min_eq_left (by omega)
+  have hty : tailLo ny W = ny - W := max_eq_right (by omega)
+  have hhz : headHi nz W = W := min_eq_left (by omega)
+  have htz : tailLo nz W = nz - W := max_eq_right (by omega)
+  unfold penaliseBoundary3D
+  simp only [if_neg hw0, exec3_cons, exec3_nil]
+  obtain ⟨dXF, _, _, _, _, _⟩ := kernels_isDamp3 w dx c.x0 f xg (⟨0, nz, 0, ny, 0, headHi nx W⟩ : Rect3)
+  obtain ⟨_, dXB, _, _, _, _⟩ := kernels_isDamp3 w dx c.x1 f xg (⟨0, nz, 0, ny, tailLo nx W, nx⟩ : Rect3)
+  obtain ⟨_, _, dYF, _, _, _⟩ := kernels_isDamp3 w dx c.y0 f yg (⟨0, nz, 0, headHi ny W, 0, nx⟩ : Rect3)
+  obtain ⟨_, _, _, dYB, _, _⟩ := kernels_isDamp3 w dx c.y1 f yg (⟨0, nz, tailLo ny W, ny, 0, nx⟩ : Rect3)
+  obtain ⟨_, _, _, _, dZF, _⟩ := kernels_isDamp3 w dx c.z0 f zg (⟨0, headHi nz W, 0, ny, 0, nx⟩ : Rect3)
+  obtain ⟨_, _, _, _, _, dZB⟩ := kernels_isDamp3 w dx c.z1 f zg (⟨tailLo nz W, nz, 0, ny, 0, nx⟩ : Rect3)
+  obtain ⟨lXF, _, _, _, _, _⟩ := kernels_isDampLin3 w dx c.x0 f xg (⟨0, nz, 0, ny, 0, headHi nx W⟩ : Rect3)
+  obtain ⟨_, lXB, _, _, _, _⟩ := kernels_isDampLin3 w dx c.x1 f xg (⟨0, nz, 0, ny, tailLo nx W, nx⟩ : Rect3)
+  obtain ⟨_, _, lYF, _, _, _⟩ := kernels_isDampLin3 w dx c.y0 f yg (⟨0, nz, 0, headHi ny W, 0, nx⟩ : Rect3)
+  obtain ⟨_, _, _, lYB, _, _⟩ := kernels_isDampLin3 w dx c.y1 f yg (⟨0, nz, tailLo ny W, ny, 0, nx⟩ : Rect3)
+  obtain ⟨_, _, _, _, lZF, _⟩ := kernels_isDampLin3 w dx c.z0 f zg (⟨0, headHi nz W, 0, ny, 0, nx⟩ : Rect3)
+  obtain ⟨_, _, _, _, _, lZB⟩ := kernels_isDampLin3 w dx c.z1 f zg (⟨tailLo nz W, nz, 0, ny, 0, nx⟩ : Rect3)
+  have rXF := (penalise3_regions realTransc w dx c.x0 f xg (⟨0, nz, 0, ny, 0, headHi nx W⟩ : Rect3)).1
+  have rXB := (penalise3_regions realTransc w dx c.x1 f xg (⟨0, nz, 0, ny, tailLo nx W, nx⟩ : Rect3)).2.1
+  have rYF := (penalise3_regions realTransc w dx c.y0 f yg (⟨0, nz, 0, headHi ny W, 0, nx⟩ : Rect3)).2.2.1
+  have rYB := (penalise3_regions realTransc w dx c.y1 f yg (⟨0, nz, tailLo ny W, ny, 0, nx⟩ : Rect3)).2.2.2.1
+  have rZF := (penalise3_regions realTransc w dx c.z0 f zg (⟨0, headHi nz W, 0, ny, 0, nx⟩ : Rect3)).2.2.2.2.1
+  have rZB := (penalise3_regions realTransc w dx c.z1 f zg (⟨tailLo nz W, nz, 0, ny, 0, nx⟩ : Rect3)).2.2.2.2.2
+  set t1 := (bcast3D "x_front" f ⟨0, nz, 0, ny, 0, headHi nx W⟩ (fun a i j _ => a i j (W - 1))).exec s with ht1
+  set t2 := (bcast3D "x_back" f ⟨0, nz, 0, ny, tailLo nx W, nx⟩ (fun a i j _ => a i j (nx - W))).exec t1 with ht2
+  set t3 := (call_penalise_field_x_front_boundary_stencil_3d_w realTransc w dx c.x0 f xg ⟨0, nz, 0, ny, 0, headHi nx W⟩).exec t2 with ht3
+  set t4 := (call_penalise_field_x_back_boundary_stencil_3d_w realTransc w dx c.x1 f xg ⟨0, nz, 0, ny, tailLo nx W, nx⟩).exec t3 with ht4
+  set t5 := (bcast3D "y_front" f ⟨0, nz, 0, headHi ny W, 0, nx⟩ (fun a i _ k => a i (W - 1) k)).exec t4 with ht5
+  set t6 := (bcast3D "y_back" f ⟨0, nz, tailLo ny W, ny, 0, nx⟩ (fun a i _ k => a i (ny - W) k)).exec t5 with ht6
+  set t7 := (call_penalise_field_y_front_boundary_stencil_3d_w realTransc w dx c.y0 f yg ⟨0, nz, 0, headHi ny W, 0, nx⟩).exec t6 with ht7
+  set t8 := (call_penalise_field_y_back_boundary_stencil_3d_w realTransc w dx c.y1 f yg ⟨0, nz, tailLo ny W, ny, 0, nx⟩).exec t7 with ht8
+  set t9 := (bcast3D "z_front" f ⟨0, headHi nz W, 0, ny, 0, nx⟩ (fun a _ j k => a (W - 1) j k)).exec t8 with ht9
+  set t10 := (bcast3D "z_back" f ⟨tailLo nz W, nz, 0, ny, 0, nx⟩ (fun a _ j k => a (nz - W) j k)).exec t9 with ht10
+  set t11 := (call_penalise_field_z_front_boundary_stencil_3d_w realTransc w dx c.z0 f zg ⟨0, headHi nz W, 0, ny, 0, nx⟩).exec t10 with ht11
+  set t12 := (call_penalise_field_z_back_boundary_stencil_3d_w realTransc w dx c.z1 f zg ⟨tailLo nz W, nz, 0, ny, 0, nx⟩).exec t11 with ht12
+  -- frames of the coordinate arrays
+  have fb : ∀ (name : String) (r : Rect3) (src : F3 ℝ → F3 ℝ) (t : Store3 B ℝ) (b : B), b ≠ f → (bcast3D name f r src).exec t b = t b :=
+    fun name r src t b hb => (exec3_write1 (bcast3D name f r src) f (fun s => src (s f)) rfl t).2 b hb
+  have k2 : ∀ b, b ≠ f → t2 b = s b := fun b hb => (fb _ _ _ t1 b hb).trans (fb _ _ _ s b hb)
+  have k3 : ∀ b, b ≠ f → t3 b = s b := fun b hb => ((exec_damp3 _ f dXF t2).2 b hb).trans (k2 b hb)
+  have k4 : ∀ b, b ≠ f → t4 b = s b := fun b hb => ((exec_damp3 _ f dXB t3).2 b hb).trans (k3 b hb)
+  have k6 : ∀ b, b ≠ f → t6 b = s b := fun b hb => (fb _ _ _ t5 b hb).trans ((fb _ _ _ t4 b hb).trans (k4 b hb))
+  have k7 : ∀ b, b ≠ f → t7 b = s b := fun b hb => ((exec_damp3 _ f dYF t6).2 b hb).trans (k6 b hb)
+  have k8 : ∀ b, b ≠ f → t8 b = s b := fun b hb => ((exec_damp3 _ f dYB t7).2 b hb).trans (k7 b hb)
+  have k10 : ∀ b, b ≠ f → t10 b = s b := fun b hb => (fb _ _ _ t9 b hb).trans ((fb _ _ _ t8 b hb).trans (k8 b hb))
+  have k11 : ∀ b, b ≠ f → t11 b = s b := fun b hb => ((exec_damp3 _ f dZF t10).2 b hb).trans (k10 b hb)
+  have e5 := exec_bcast3 "y_front" f ⟨0, nz, 0, headHi ny W, 0, nx⟩ (fun a i _ k => a i (W - 1) k) t4
+  have e6 := exec_bcast3 "y_back" f ⟨0, nz, tailLo ny W, ny, 0, nx⟩ (fun a i _ k => a i (ny - W) k) t5
+  have e9 := exec_bcast3 "z_front" f ⟨0, headHi nz W, 0, ny, 0, nx⟩ (fun a _ j k => a (W - 1) j k) t8
+  have e10 := exec_bcast3 "z_back" f ⟨tailLo nz W, nz, 0, ny, 0, nx⟩ (fun a _ j k => a (nz - W) j k) t9
+  rw [← ht5] at e5; rw [← ht6] at e6; rw [← ht9] at e9; rw [← ht10] at e10
+  -- a column (all i) that is zero after the y pass stays zero through the z pass
+  have zKeep : ∀ j k, (∀ a, 0 ≤ a → a < nz → t8 f a j k = 0) → ∀ i, 0 ≤ i → i < nz → t12 f i j k = 0 := by
+    intro j k hcol i hi0 hi1
+    have h9 : ∀ a, 0 ≤ a → a < nz → t9 f a j k = 0 := by
+      intro a ha0 ha1
+      rw [e9]; simp only [applyK3, Rect3.mem, hhz]
+      split_ifs
+      · exact hcol (W - 1) (by omega) (by omega)
+      · exact hcol a ha0 ha1
+    have h10 : t10 f i j k = 0 := by
+      rw [e10]; simp only [applyK3, Rect3.mem, htz]
+      split_ifs
+      · exact h9 (nz - W) (by omega) (by omega)
+      · exact h9 i hi0 hi1
+    exact damp_zero3 _ f dZB t11 i j k (damp_zero3 _ f dZF t10 i j k h10)
+  -- a face k = const that is zero after the x pass stays zero through the y pass
+  have yKeep : ∀ k, (∀ a b, 0 ≤ a → a < nz → 0 ≤ b → b < ny → t4 f a b k = 0) →
+      ∀ a b, 0 ≤ a → a < nz → 0 ≤ b → b < ny → t8 f a b k = 0 := by
+    intro k hface a b ha0 ha1 hb0 hb1
+    have h5 : ∀ b', 0 ≤ b' → b' < ny → t5 f a b' k = 0 := by
+      intro b' hb0' hb1'
+      rw [e5]; simp only [applyK3, Rect3.mem, hhy]
+      split_ifs
+      · exact hface a (W - 1) ha0 ha1 (by omega) (by omega)
+      · exact hface a b' ha0 ha1 hb0' hb1'
+    have h6 : t6 f a b k = 0 := by
+      rw [e6]; simp only [applyK3, Rect3.mem, hty]
+      split_ifs
+      · exact h5 (ny - W) (by omega) (by omega)
+      · exact h5 b hb0 hb1
+    exact damp_zero3 _ f dYB t7 a b k (damp_zero3 _ f dYF t6 a b k h6)
+  refine ⟨?_, ?_, ?_, ?_, ?_, ?_⟩
+  · intro hxg i j hi0 hi1 hj0 hj1
+    refine zKeep j 0 (fun a ha0 ha1 => yKeep 0 ?_ a j ha0 ha1 hj0 hj1) i hi0 hi1
+    intro a b ha0 ha1 hb0 hb1
+    obtain ⟨κ, hκ⟩ := exec_damplin3 _ f xg c.x0 lXF t2
+    have h3 : t3 f a b 0 = 0 := by
+      rw [ht3, hκ a b 0 (by rw [rXF]; simp only [Rect3.mem, hhx]; omega), k2 xg hfx, hxg a b ha0 ha1 hb0 hb1]
+      simp
+    exact damp_zero3 _ f dXB t3 a b 0 h3
+  · intro hxg i j hi0 hi1 hj0 hj1
+    refine zKeep j (nx - 1) (fun a ha0 ha1 => yKeep (nx - 1) ?_ a j ha0 ha1 hj0 hj1) i hi0 hi1
+    intro a b ha0 ha1 hb0 hb1
+    obtain ⟨κ, hκ⟩ := exec_damplin3 _ f xg c.x1 lXB t3
+    rw [ht4, hκ a b (nx - 1) (by rw [rXB]; simp only [Rect3.mem, htx]; omega), k3 xg hfx, hxg a b ha0 ha1 hb0 hb1]
+    simp
+  · intro hyg i k hi0 hi1 hk0 hk1
+    refine zKeep 0 k ?_ i hi0 hi1
+    intro a ha0 ha1
+    obtain ⟨κ, hκ⟩ := exec_damplin3 _ f yg c.y0 lYF t6
+    have h7 : t7 f a 0 k = 0 := by
+      rw [ht7, hκ a 0 k (by rw [rYF]; simp only [Rect3.mem, hhy]; omega), k6 yg hfy, hyg a k ha0 ha1 hk0 hk1]
+      simp
+    exact damp_zero3 _ f dYB t7 a 0 k h7
+  · intro hyg i k hi0 hi1 hk0 hk1
+    refine zKeep (ny - 1) k ?_ i hi0 hi1
+    intro a ha0 ha1
+    obtain ⟨κ, hκ⟩ := exec_damplin3 _ f yg c.y1 lYB t7
+    rw [ht8, hκ a (ny - 1) k (by rw [rYB]; simp only [Rect3.mem, hty]; omega), k7 yg hfy, hyg a k ha0 ha1 hk0 hk1]
+    simp
+  · intro hzg j k hj0 hj1 hk0 hk1
+    obtain ⟨κ, hκ⟩ := exec_damplin3 _ f zg c.z0 lZF t10
+    have h11 : t11 f 0 j k = 0 := by
+      rw [ht11, hκ 0 j k (by rw [rZF]; simp only [Rect3.mem, hhz]; omega), k10 zg hfz, hzg j k hj0 hj1 hk0 hk1]
+      simp
+    exact damp_zero3 _ f dZB t11 0 j k h11
+  · intro hzg j k hj0 hj1 hk0 hk1
+    obtain ⟨κ, hκ⟩ := exec_damplin3 _ f zg c.z1 lZB t11
+    rw [ht12, hκ (nz - 1) j k (by rw [rZB]; simp only [Rect3.mem, htz]; omega), k11 zg hfz, hzg j k hj0 hj1 hk0 hk1]
+    simp
+
+end RingZero3
+
 end Sopht.Props.C19
